@@ -190,6 +190,19 @@ def run_unit(unit, rec):
                         if not ok:
                             _v(rec, "a" if inp == "plain" else "e", dict(sig, what="value"), "%s differs from I*lambda/(h c N_A) (or its inverse)" % direction, case, observed=got if got.size < 20 else got.ravel()[:20], expected=exp if np.size(exp) < 20 else np.ravel(exp)[:20])
                             continue
+                        # integer-typed wavelengths (np.arange(300, 701, 5), the scalar 500): the same numbers as floats
+                        if inp == "plain" and ru is None and sname in ("combo", "onehot0") and wax is None:
+                            rec.trans()
+                            try:
+                                wi = np.asarray(w).astype(np.int64) if np.ndim(w) else int(w)
+                                ow = _mag(fn(a_in, wi, **kw))
+                                okw_ = ow.shape == np.shape(exp) and np.all(np.abs(ow - exp) <= 1e-12 * np.abs(exp) + 1e-300)
+                            except Exception as e:  # noqa
+                                okw_ = False
+                            rec.outcome("int-typed-wavelengths/%s" % ("ok" if okw_ else "bad"))
+                            if not okw_:
+                                _v(rec, "a", dict(sig, what="int-typed wavelengths"), "%s with integer-typed wavelengths differs from the conversion with the same wavelengths as floats" % direction, dict(case, dtype="int-wavelengths"),
+                                   script="import numpy as np, dreye\nx = np.array(%r)\nprint(dreye.%s(x, np.array(%r), prefix=%r%s))\n" % (arr_np.tolist(), direction, np.asarray(w).astype(np.int64).tolist(), prefix, "" if axis is None else ", axis=%d" % axis))
                         # integer-typed spectra (photon counts, digitiser units): the same numbers as floats
                         if inp == "plain" and ru is None and arr_np.ndim >= 1 and np.all(arr_np * 4 == np.round(arr_np * 4)) and sname != "zero":
                             rec.trans()
